@@ -4,6 +4,7 @@ package main
 
 import (
 	"fmt"
+	"net/http/httptest"
 	"strings"
 
 	"foxverif/hx"
@@ -18,6 +19,31 @@ func run(p string) (out string, panicked bool) {
 		}
 	}()
 	return fox.CleanPath(p), false
+}
+
+// redirRouter has redirecting trailing-slash routes whose slash-adjusted forms are
+// reachable from short inputs over {/ . a}: a request p gets a 301/308 only if p is canonical.
+var redirRouter = func() *fox.Router {
+	f, err := fox.New(fox.WithRedirectTrailingSlash(true))
+	hx.Fatal(err)
+	h := func(c fox.Context) {}
+	for _, p := range []string{"/a/", "/aa", "/a/a/", "/a/aa", "/{x}/a/a/", "/.a/", "/a./", "/..a", "/a/*{w}/a/", "/aaa/{y}/"} {
+		f.MustHandle("GET", p, h)
+		f.MustHandle("POST", p, h)
+	}
+	return f
+}()
+
+func redirected(p string) bool {
+	w := httptest.NewRecorder()
+	req := httptest.NewRequest("GET", "/", nil)
+	req.URL.Path = p
+	req.URL.RawPath = ""
+	func() {
+		defer func() { _ = recover() }()
+		redirRouter.ServeHTTP(w, req)
+	}()
+	return w.Code == 301 || w.Code == 308
 }
 
 func enumerate(alpha []string, maxLen int, f func(string)) {
@@ -57,7 +83,17 @@ func main() {
 		}
 		seen[p] = true
 		o, pan := run(p)
-		term := hx.Pair(hx.Bytes(p), hx.Opt(!pan, hx.Bytes(o)))
+		red := "None"
+		if len(p) > 0 && len(p) <= 24 && p[0] == '/' {
+			if redirected(p) {
+				red = "(Some true)"
+				st.Count("redirect:issued")
+			} else {
+				red = "(Some false)"
+				st.Count("redirect:not-issued")
+			}
+		}
+		term := "(" + hx.Bytes(p) + ", " + hx.Opt(!pan, hx.Bytes(o)) + ", " + red + ")"
 		cs.Add(term, fmt.Sprintf("CleanPath(%s) = %s panic=%v", hx.Quote(p), hx.Quote(o), pan))
 		st.Count("kind:" + kind)
 		st.Count(fmt.Sprintf("len:%03d-%03d", len(p)/32*32, len(p)/32*32+31))
